@@ -99,6 +99,34 @@ theorem c05_read_row_partial (s : Schema) (rows : List Row) (hs : WFschema s) (h
   simp only [List.length_append, encodeExdHeader_length, encodeIndex_length]
   simp [chunksOf]
 
+/-- For default sheets (no sub-rows) the statement holds without exclusion: every stored row
+reads back as its single record. -/
+theorem c05_read_row_default (s : Schema) (rows : List Row) (hs : WFschema s) (hr : WFrows s rows)
+    (hd : s.subrows = false) (r : Row) (hmem : r ∈ rows) :
+    ∃ exh exd, Exh.fromExisting (encodeExh s) = some exh ∧
+      Exd.fromExisting (encodeExd s rows) = some exd ∧
+      readRow exd exh r.id = .ok (r.subs.map (·.map toData)) :=
+  c05_read_row_partial s rows hs hr r hmem (by simp [singleSubrow, hd])
+
+/-- a default sheet: string, Bool, three packed bools in one byte, i64, f32 (shuffled order) -/
+def dSchema : Schema where
+  version := 3
+  dataOffset := 20
+  subrows := false
+  rowCount := 2
+  columns := [⟨.packedBool 3, 5⟩, ⟨.string, 0⟩, ⟨.int64, 8⟩, ⟨.bool, 4⟩, ⟨.packedBool 0, 5⟩,
+    ⟨.float32, 16⟩, ⟨.packedBool 7, 5⟩]
+  pages := [⟨0, 2⟩]
+  languages := [.ja, .en]
+
+def dRows : List Row :=
+  [⟨1, [[.bool true, .str [0x61, 0x62], .i64 0xFFFFFFFFFFFFFFFF, .bool true, .bool false,
+      .f32 0x7FC00000, .bool true]]⟩,
+   ⟨4294967295, [[.bool false, .str [], .i64 0, .bool false, .bool true, .f32 0, .bool false]]⟩]
+
+/-- non-vacuity of `c05_read_row_default` -/
+example : WFschema dSchema ∧ WFrows dSchema dRows ∧ dSchema.subrows = false := by decide +kernel
+
 /-- a sub-row sheet with one u16 column -/
 def wSchema : Schema where
   version := 3
